@@ -361,6 +361,7 @@ Proof.
   { cbn [match_shape]. unfold m_decimal. rewrite Hsp1. cbn [length].
     unfold n. rewrite <- app_assoc. change (S (length ip')) with (length (c :: ip')). rewrite skipn_app_exact.
     cbn [app]. change (46 =? 46) with true. cbv iota.
+    change (f0 :: fp' ++ rest) with ((f0 :: fp') ++ rest).
     rewrite (span_digits (f0 :: fp') rest Hf Hr). cbn [length]. f_equal. lia. }
   unfold lex_one, lex_one_with. rewrite rules_split_decimal.
   rewrite (best_rule_pick _ DECIMAL SDecimal _ _ _ None Hm).
@@ -374,3 +375,397 @@ Proof.
     rewrite <- app_assoc. cbn [app] in *. lia.
   - exact I.
 Qed.
+
+(* ---------------------------------------------------------------------------------------------- *)
+(* tokens with a fixed text: the rules that can start with their first character are found by computation *)
+
+Ltac lex_first :=
+  unfold lex_one, lex_one_with; rewrite best_rule_filter;
+  match goal with
+  | |- context [filter ?f lexer_rules] =>
+      let v := eval vm_compute in (filter f lexer_rules) in change (filter f lexer_rules) with v
+  end.
+
+Definition single_syms : list (N * kind) :=
+  [(44, COMMA); (40, LPAREN); (41, RPAREN); (91, LBRACK); (93, RBRACK); (46, DOT); (43, PLUS); (45, MINUS);
+   (42, TIMES); (47, DIVIDE); (94, EXPONENT); (38, AMPERSAND)].
+
+(* one-character tokens that no other rule can extend *)
+Lemma lex_one_single c k x : In (c, k) single_syms -> lex_one (c :: x) = Some (k, false, [c], x).
+Proof.
+  unfold single_syms. cbn [In]. intros H.
+  repeat (destruct H as [H|H]; [inversion H; subst; lex_first; reflexivity|]). contradiction.
+Qed.
+
+Definition double_syms : list (N * N * kind) := [(33, 61, NEQ); (60, 61, LTE); (62, 61, GTE); (61, 62, ARROW)].
+
+Lemma lex_one_double a b k x : In (a, b, k) double_syms -> lex_one (a :: b :: x) = Some (k, false, [a; b], x).
+Proof.
+  unfold double_syms. cbn [In]. intros H.
+  repeat (destruct H as [H|H]; [inversion H; subst; lex_first; reflexivity|]). contradiction.
+Qed.
+
+(* '=', '<', '>' are tokens of their own unless the character that would extend them follows *)
+Definition ext_syms : list (N * N * kind) := [(61, 62, EQ); (60, 61, LT); (62, 61, GT)].
+
+Lemma lex_one_ext a e k x : In (a, e, k) ext_syms -> next_not (N.eqb e) x = true ->
+  lex_one (a :: x) = Some (k, false, [a], x).
+Proof.
+  unfold ext_syms. cbn [In]. intros H Hx.
+  repeat (destruct H as [H|H];
+    [inversion H; subst; lex_first; destruct x as [|d r]; [reflexivity|];
+     cbn [next_not] in Hx; apply negb_true_iff in Hx; cbn [best_rule match_shape m_lit m_any]; rewrite Hx; reflexivity|]).
+  contradiction.
+Qed.
+
+(* the words true, false, null as the printer writes them *)
+Lemma span_rest_zero rest : next_not name_char rest = true -> span_len name_char rest = O.
+Proof. destruct rest as [|d r]; [reflexivity|]. cbn [next_not span_len]. intros H. apply negb_true_iff in H. rewrite H. reflexivity. Qed.
+
+Lemma lex_one_true rest : next_not name_char rest = true ->
+  lex_one ([116; 114; 117; 101] ++ rest) = Some (TRUE, false, [116; 114; 117; 101], rest).
+Proof.
+  intros H. cbn [app]. lex_first. cbn [best_rule match_shape m_ci m_name m_any].
+  change (name_start 116) with true. cbv iota.
+  change (span_len name_char (114 :: 117 :: 101 :: rest)) with (S (S (S (span_len name_char rest)))).
+  rewrite (span_rest_zero _ H). reflexivity.
+Qed.
+
+Lemma lex_one_false rest : next_not name_char rest = true ->
+  lex_one ([102; 97; 108; 115; 101] ++ rest) = Some (FALSE, false, [102; 97; 108; 115; 101], rest).
+Proof.
+  intros H. cbn [app]. lex_first. cbn [best_rule match_shape m_ci m_name m_any].
+  change (name_start 102) with true. cbv iota.
+  change (span_len name_char (97 :: 108 :: 115 :: 101 :: rest)) with (S (S (S (S (span_len name_char rest))))).
+  rewrite (span_rest_zero _ H). reflexivity.
+Qed.
+
+Lemma lex_one_null rest : next_not name_char rest = true ->
+  lex_one ([110; 117; 108; 108] ++ rest) = Some (NULL, false, [110; 117; 108; 108], rest).
+Proof.
+  intros H. cbn [app]. lex_first. cbn [best_rule match_shape m_ci m_name m_any].
+  change (name_start 110) with true. cbv iota.
+  change (span_len name_char (117 :: 108 :: 108 :: rest)) with (S (S (S (span_len name_char rest)))).
+  rewrite (span_rest_zero _ H). reflexivity.
+Qed.
+
+(* a space before something that is not white space *)
+Lemma lex_one_sp rest : next_not (fun c => existsb (N.eqb c) [32; 9; 10; 13]) rest = true -> rest <> [] ->
+  lex_one (32 :: rest) = Some (WS, true, [32], rest).
+Proof.
+  intros H Hne. destruct rest as [|c x]; [congruence|]. cbn [next_not] in H. apply negb_true_iff in H.
+  apply lex_one_space. exact H.
+Qed.
+
+(* ---------------------------------------------------------------------------------------------- *)
+(* TEXT: a quoted literal followed by text without a quote, or not ending in a backslash *)
+
+Lemma text_scan_noquote : forall rest prev n best, existsb (N.eqb 34) rest = false -> text_scan prev n best rest = best.
+Proof.
+  induction rest as [|c r IH]; intros prev n best H; [reflexivity|].
+  cbn [existsb] in H. apply orb_false_elim in H. destruct H as [H1 H2]. cbn [text_scan].
+  rewrite N.eqb_sym, H1. apply IH. exact H2.
+Qed.
+
+Lemma m_text_quoted_noquote body tail : quotes_preceded 34 body = true -> existsb (N.eqb 34) tail = false ->
+  m_text (34 :: body ++ 34 :: tail) = Some (S (S (length body))).
+Proof.
+  intros H Hq. cbn [m_text]. change (34 =? 34) with true. cbv iota.
+  destruct (text_scan_through body 34 1 None (34 :: tail) H) as [best' ->].
+  cbn [text_scan]. change (34 =? 34) with true. cbv iota.
+  destruct (last body 34 =? 92); [|reflexivity]. apply text_scan_noquote. exact Hq.
+Qed.
+
+Definition text_follow_ok (s rest : text) : bool := negb (ends_bs s) || negb (existsb (N.eqb 34) rest).
+
+Theorem lex_one_text p s rest : text_follow_ok s rest = true ->
+  lex_one (quote p s ++ rest) = Some (TEXT, false, quote p s, rest).
+Proof.
+  intros H. unfold text_follow_ok in H. destruct (ends_bs s) eqn:Eb.
+  - cbn [negb orb] in H. apply negb_true_iff in H.
+    unfold lex_one, lex_one_with, quote. cbn [app]. rewrite <- app_assoc. cbn [app].
+    rewrite (best_text _ _ (m_text_quoted_noquote _ rest (quote_body_quotes_preceded p s 34) H)).
+    cbn [is_skip].
+    replace (S (S (length (quote_body p s)))) with (length (34 :: quote_body p s ++ [34]))
+      by (cbn [length]; rewrite app_length; cbn; lia).
+    replace (34 :: quote_body p s ++ 34 :: rest) with ((34 :: quote_body p s ++ [34]) ++ rest)
+      by (cbn [app]; rewrite <- app_assoc; reflexivity).
+    rewrite firstn_app_exact, skipn_app_exact. reflexivity.
+  - apply lex_one_quoted. exact Eb.
+Qed.
+
+(* ---------------------------------------------------------------------------------------------- *)
+(* one condition per token: its text is a lexeme of its kind and what follows cannot extend it *)
+
+Fixpoint teqb (a b : text) : bool :=
+  match a, b with
+  | [], [] => true
+  | x :: a', y :: b' => (x =? y) && teqb a' b'
+  | _, _ => false
+  end.
+
+Lemma teqb_eq a b : teqb a b = true -> a = b.
+Proof.
+  revert b. induction a as [|x a IH]; intros [|y b] H; try discriminate; [reflexivity|].
+  cbn [teqb] in H. apply andb_prop in H. destruct H as [H1 H2]. apply N.eqb_eq in H1. subst. f_equal. apply IH. exact H2.
+Qed.
+
+Definition sym_ok (k : kind) (s rest : text) : bool :=
+  existsb (fun x => kind_eqb k (snd x) && teqb s [fst x]) single_syms
+  || existsb (fun x => kind_eqb k (snd x) && teqb s [fst (fst x); snd (fst x)]) double_syms
+  || existsb (fun x => kind_eqb k (snd x) && teqb s [fst (fst x)] && next_not (N.eqb (snd (fst x))) rest) ext_syms.
+
+Section TokOk.
+Variable printable : N -> bool.
+
+Definition tok_ok (t : token) (rest : text) : bool :=
+  match tk t with
+  | NAME => name_lexeme (tx t) && negb (is_keyword (tx t)) && next_not name_char rest
+  | INTEGER => all_digits (tx t) && next_not is_digit rest && negb (dot_digit rest)
+  | DECIMAL =>
+      match split_dot (tx t) with
+      | (ip, Some fp) => all_digits ip && all_digits fp && next_not is_digit rest
+      | _ => false
+      end
+  | TRUE => teqb (tx t) [116; 114; 117; 101] && next_not name_char rest
+  | FALSE => teqb (tx t) [102; 97; 108; 115; 101] && next_not name_char rest
+  | NULL => teqb (tx t) [110; 117; 108; 108] && next_not name_char rest
+  | TEXT =>
+      match text_value (tx t) with
+      | Some v => teqb (tx t) (quote printable v) && text_follow_ok v rest
+      | None => false
+      end
+  | k => sym_ok k (tx t) rest
+  end.
+
+Lemma split_dot_some : forall l ip fp, split_dot l = (ip, Some fp) -> l = ip ++ 46 :: fp.
+Proof.
+  induction l as [|c l IH]; intros ip fp H; [discriminate|]. cbn [split_dot] in H.
+  destruct (N.eqb_spec c 46) as [->|Hc].
+  - inversion H; subst. reflexivity.
+  - destruct (split_dot l) as [a b] eqn:E. inversion H; subst. cbn [app]. f_equal. apply IH. reflexivity.
+Qed.
+
+Lemma sym_ok_lex k s rest : sym_ok k s rest = true -> lex_one (s ++ rest) = Some (k, false, s, rest).
+Proof.
+  unfold sym_ok. intros H. apply orb_prop in H. destruct H as [H|H]; [apply orb_prop in H; destruct H as [H|H]|].
+  - apply existsb_exists in H. destruct H as ([c k'] & Hin & H). cbn [fst snd] in H.
+    apply andb_prop in H. destruct H as [H1 H2]. apply kind_eqb_eq in H1. apply teqb_eq in H2. subst.
+    apply (lex_one_single c k' rest Hin).
+  - apply existsb_exists in H. destruct H as ([[a b] k'] & Hin & H). cbn [fst snd] in H.
+    apply andb_prop in H. destruct H as [H1 H2]. apply kind_eqb_eq in H1. apply teqb_eq in H2. subst.
+    apply (lex_one_double a b k' rest Hin).
+  - apply existsb_exists in H. destruct H as ([[a e] k'] & Hin & H). cbn [fst snd] in H.
+    apply andb_prop in H. destruct H as [H H3]. apply andb_prop in H. destruct H as [H1 H2].
+    apply kind_eqb_eq in H1. apply teqb_eq in H2. subst.
+    apply (lex_one_ext a e k' rest Hin H3).
+Qed.
+
+Theorem tok_ok_lex t rest : tok_ok t rest = true -> lex_one (tx t ++ rest) = Some (tk t, false, tx t, rest).
+Proof.
+  unfold tok_ok. destruct t as [k s]. cbn [tk tx]. intros H.
+  destruct k; try (apply sym_ok_lex; exact H).
+  - (* TEXT *)
+    destruct (text_value s) as [v|]; [|discriminate]. apply andb_prop in H. destruct H as [H1 H2].
+    apply teqb_eq in H1. subst s. apply lex_one_text. exact H2.
+  - (* INTEGER *)
+    apply andb_prop in H. destruct H as [H H3]. apply andb_prop in H. destruct H as [H1 H2].
+    apply negb_true_iff in H3. apply lex_one_integer; assumption.
+  - (* DECIMAL *)
+    destruct (split_dot s) as [ip [fp|]] eqn:E; [|discriminate].
+    apply andb_prop in H. destruct H as [H H3]. apply andb_prop in H. destruct H as [H1 H2].
+    rewrite (split_dot_some _ _ _ E). apply lex_one_decimal; assumption.
+  - apply andb_prop in H. destruct H as [H1 H2]. apply teqb_eq in H1. subst s. apply lex_one_true. exact H2.
+  - apply andb_prop in H. destruct H as [H1 H2]. apply teqb_eq in H1. subst s. apply lex_one_false. exact H2.
+  - apply andb_prop in H. destruct H as [H1 H2]. apply teqb_eq in H1. subst s. apply lex_one_null. exact H2.
+  - (* NAME *)
+    apply andb_prop in H. destruct H as [H H3]. apply andb_prop in H. destruct H as [H1 H2].
+    apply negb_true_iff in H2. apply lex_one_name; assumption.
+Qed.
+
+(* ---------------------------------------------------------------------------------------------- *)
+(* printed text = tokens and spaces *)
+
+Inductive item := Tok (t : token) | Sp.
+
+Definition render_item (i : item) : text := match i with Tok t => tx t | Sp => [32] end.
+
+Fixpoint render (l : list item) : text :=
+  match l with [] => [] | i :: r => render_item i ++ render r end.
+
+Fixpoint toks_of (l : list item) : list token :=
+  match l with [] => [] | Tok t :: r => t :: toks_of r | Sp :: r => toks_of r end.
+
+Definition is_ws (c : N) : bool := existsb (N.eqb c) [32; 9; 10; 13].
+
+Fixpoint items_ok (l : list item) : bool :=
+  match l with
+  | [] => true
+  | Tok t :: r => tok_ok t (render r) && items_ok r
+  | Sp :: r => next_not is_ws (render r) && match render r with [] => false | _ => true end && items_ok r
+  end.
+
+Lemma render_app a b : render (a ++ b) = render a ++ render b.
+Proof. induction a as [|i a IH]; [reflexivity|]. cbn [app render]. rewrite IH, app_assoc. reflexivity. Qed.
+
+Lemma toks_of_app a b : toks_of (a ++ b) = toks_of a ++ toks_of b.
+Proof. induction a as [|[t|] a IH]; cbn [app toks_of]; [reflexivity|rewrite IH; reflexivity|exact IH]. Qed.
+
+(* the step equation of the lexer in terms of lex_one on any non-empty input *)
+Lemma lex_by_one inp k skip lexeme rest : lex_one inp = Some (k, skip, lexeme, rest) ->
+  lex inp = match lex rest with
+            | LOk ts => LOk (if skip then ts else {| tk := k; tx := lexeme |} :: ts)
+            | r => r
+            end.
+Proof.
+  intros H. destruct inp as [|c inp'].
+  - apply lex_one_shorter in H. destruct H as [H _]. cbn in H. lia.
+  - rewrite lex_step. generalize dependent (lex_one (c :: inp')). intros o ->. reflexivity.
+Qed.
+
+(* Lemma L: lexing the rendering of well-separated items gives the tokens back *)
+Theorem lex_items : forall l, items_ok l = true -> lex (render l) = LOk (toks_of l).
+Proof.
+  induction l as [|[t|] r IH]; intros H.
+  - reflexivity.
+  - cbn [items_ok] in H. apply andb_prop in H. destruct H as [H1 H2].
+    cbn [render render_item toks_of]. rewrite (lex_by_one _ _ _ _ _ (tok_ok_lex _ _ H1)), (IH H2).
+    destruct t; reflexivity.
+  - cbn [items_ok] in H. apply andb_prop in H. destruct H as [H H3]. apply andb_prop in H. destruct H as [H1 H2].
+    cbn [render render_item toks_of app].
+    assert (Hne : render r <> []) by (destruct (render r); [discriminate|discriminate]).
+    rewrite (lex_by_one _ _ _ _ _ (lex_one_sp _ H1 Hne)), (IH H3). reflexivity.
+Qed.
+
+End TokOk.
+
+(* ---------------------------------------------------------------------------------------------- *)
+(* Expression.String() as items *)
+
+Section PrintItems.
+Variable lower : N -> N.
+Variable printable : N -> bool.
+
+Definition T (t : token) : item := Tok t.
+
+Fixpoint names_items (a : list text) : list item :=
+  match a with
+  | [] => []
+  | n :: r => match r with [] => [T (tokc NAME n)] | _ => T (tokc NAME n) :: T COMMAt :: Sp :: names_items r end
+  end.
+
+(* the separator before a lookup: a space between two numeric lookups (the repaired DotLookup.String) *)
+Definition dot_items (c : expr) (l : text) : list item :=
+  match c with
+  | EDot _ l' => if is_digits l' && is_digits l then [Sp; T DOTt] else [T DOTt]
+  | _ => [T DOTt]
+  end.
+
+Fixpoint pitems (e : expr) : list item :=
+  match e with
+  | ECtxRef n => [T (tokc NAME (map lower n))]
+  | EDot c l => pitems c ++ dot_items c l ++ [T (lookup_tok l)]
+  | EIndex c l => pitems c ++ [T LB] ++ pitems l ++ [T RB]
+  | ECall f ps =>
+      pitems f ++ [T LP] ++
+      (fix go (l : list expr) : list item :=
+         match l with
+         | [] => []
+         | x :: r => match r with [] => pitems x | _ => pitems x ++ T COMMAt :: Sp :: go r end
+         end) ps ++ [T RP]
+  | EAnon a b => [T LP] ++ names_items a ++ [T RP; Sp; T ARROWt; Sp] ++ pitems b
+  | EBin o a b => pitems a ++ [Sp; T (op_tok o); Sp] ++ pitems b
+  | ENeg a => T MINUSt :: pitems a
+  | EParen a => T LP :: pitems a ++ [T RP]
+  | EText v => [T (tokc TEXT (quote printable v))]
+  | ENum l => [T (num_tok (num_render l))]
+  | EBool b => [T (if b then tokc TRUE [116; 114; 117; 101] else tokc FALSE [102; 97; 108; 115; 101])]
+  | ENull => [T (tokc NULL [110; 117; 108; 108])]
+  end.
+
+Fixpoint pitems_list (l : list expr) : list item :=
+  match l with
+  | [] => []
+  | x :: r => match r with [] => pitems x | _ => pitems x ++ T COMMAt :: Sp :: pitems_list r end
+  end.
+
+Lemma pitems_call f ps : pitems (ECall f ps) = pitems f ++ [T LP] ++ pitems_list ps ++ [T RP].
+Proof. reflexivity. Qed.
+
+Lemma render_names a : render (names_items a) = join_comma a.
+Proof.
+  induction a as [|n [|n2 r] IH]; [reflexivity| |].
+  - cbn. rewrite app_nil_r. reflexivity.
+  - change (names_items (n :: n2 :: r)) with (T (tokc NAME n) :: T COMMAt :: Sp :: names_items (n2 :: r)).
+    cbn [render render_item T tx tokc COMMAt]. rewrite IH. cbn [join_comma app]. reflexivity.
+Qed.
+
+Lemma toks_names a : toks_of (names_items a) = names_toks a.
+Proof.
+  induction a as [|n [|n2 r] IH]; [reflexivity|reflexivity|].
+  change (names_items (n :: n2 :: r)) with (T (tokc NAME n) :: T COMMAt :: Sp :: names_items (n2 :: r)).
+  cbn [toks_of T]. rewrite IH. reflexivity.
+Qed.
+
+Lemma render_dot c l : render (dot_items c l) = dot_sep c l.
+Proof. unfold dot_items, dot_sep. destruct c; try reflexivity. destruct (is_digits lookup && is_digits l); reflexivity. Qed.
+
+Lemma toks_dot c l : toks_of (dot_items c l) = [DOTt].
+Proof. unfold dot_items. destruct c; try reflexivity. destruct (is_digits lookup && is_digits l); reflexivity. Qed.
+
+(* (I) the printer model writes exactly the rendering of the items, and their tokens are ptoks *)
+Theorem render_pitems : forall e, render (pitems e) = print lower printable e.
+Proof.
+  induction e as [n|c l IHc|c l IHc IHl|f ps IHf IHps|a b IHb|o a b IHa IHb|a IHa|a IHa|v|l|b|] using expr_ind'.
+  - cbn. rewrite app_nil_r. reflexivity.
+  - cbn [pitems print]. rewrite !render_app, IHc, render_dot. cbn. rewrite app_nil_r. reflexivity.
+  - cbn [pitems print]. rewrite !render_app, IHc, IHl. reflexivity.
+  - rewrite pitems_call. cbn [print]. rewrite !render_app, IHf.
+    assert (E : render (pitems_list ps) = join_comma (map (print lower printable) ps)).
+    { induction IHps as [|x r Hx Hr IH]; [reflexivity|]. destruct r as [|y r'].
+      - cbn [pitems_list map join_comma]. exact Hx.
+      - change (pitems_list (x :: y :: r')) with (pitems x ++ T COMMAt :: Sp :: pitems_list (y :: r')).
+        rewrite render_app. cbn [render render_item T tx COMMAt tokc]. rewrite Hx, IH.
+        cbn [map join_comma app]. reflexivity. }
+    rewrite E. reflexivity.
+  - cbn [pitems print]. rewrite !render_app, render_names, IHb. reflexivity.
+  - cbn [pitems print]. rewrite !render_app, IHa, IHb. cbn. rewrite <- !app_assoc. destruct o; reflexivity.
+  - cbn [pitems print render render_item T]. rewrite IHa. reflexivity.
+  - cbn [pitems print render render_item T]. rewrite render_app, IHa. reflexivity.
+  - cbn. rewrite app_nil_r. reflexivity.
+  - cbn. rewrite app_nil_r. reflexivity.
+  - destruct b; reflexivity.
+  - reflexivity.
+Qed.
+
+Theorem toks_pitems : forall e, toks_of (pitems e) = ptoks lower printable e.
+Proof.
+  induction e as [n|c l IHc|c l IHc IHl|f ps IHf IHps|a b IHb|o a b IHa IHb|a IHa|a IHa|v|l|b|] using expr_ind'.
+  - reflexivity.
+  - cbn [pitems ptoks]. rewrite !toks_of_app, IHc, toks_dot. reflexivity.
+  - cbn [pitems ptoks]. rewrite !toks_of_app, IHc, IHl. reflexivity.
+  - rewrite pitems_call, ptoks_call. rewrite !toks_of_app, IHf.
+    assert (E : toks_of (pitems_list ps) = ptoks_list lower printable ps).
+    { induction IHps as [|x r Hx Hr IH]; [reflexivity|]. destruct r as [|y r'].
+      - cbn [pitems_list ptoks_list]. exact Hx.
+      - change (pitems_list (x :: y :: r')) with (pitems x ++ T COMMAt :: Sp :: pitems_list (y :: r')).
+        rewrite toks_of_app. cbn [toks_of T]. rewrite Hx, IH. reflexivity. }
+    rewrite E. reflexivity.
+  - cbn [pitems ptoks]. rewrite !toks_of_app, toks_names, IHb. reflexivity.
+  - cbn [pitems ptoks]. rewrite !toks_of_app, IHa, IHb. reflexivity.
+  - cbn [pitems ptoks toks_of T]. rewrite IHa. reflexivity.
+  - cbn [pitems ptoks toks_of T]. rewrite toks_of_app, IHa. reflexivity.
+  - reflexivity.
+  - reflexivity.
+  - destruct b; reflexivity.
+  - reflexivity.
+Qed.
+
+(* the decidable side condition of the round trip: no two neighbours of the printed text glue together *)
+Definition glue_free (e : expr) : bool := items_ok printable (pitems e).
+
+(* lexing the printed text gives the printed tokens *)
+Theorem lex_print e : glue_free e = true -> lex (print lower printable e) = LOk (ptoks lower printable e).
+Proof. intros H. rewrite <- render_pitems, <- toks_pitems. apply (lex_items printable). exact H. Qed.
+
+End PrintItems.
